@@ -189,7 +189,11 @@ def build_arg(pkg, v):
         if k == "@enum":
             return getattr(importlib.import_module(pkg + ".models"), x[0])(x[1])
         if k == "@model":
-            return getattr(importlib.import_module(pkg + ".models"), x[0]).from_dict(unjson(x[1]))
+            obj = getattr(importlib.import_module(pkg + ".models"), x[0]).from_dict(unjson(x[1]))
+            for attr, hx in (x[2] if len(x) > 2 else {}).items():       # binary attributes cannot come from JSON: set them on the object
+                T = importlib.import_module(pkg + ".types")
+                setattr(obj, attr, T.File(payload=io.BytesIO(bytes.fromhex(hx)), file_name=attr + ".bin", mime_type="application/x-test"))
+            return obj
         if k == "@unset":
             return importlib.import_module(pkg + ".types").UNSET
         if k == "@file":
